@@ -4,6 +4,7 @@ CONSTANTS
   MaxItems = 3
   MaxTargets = 2
   MaxOdd = 1
+  Stretching = FALSE
 INVARIANT LoadedImpliesAcyclic
 INVARIANT WalkBound
 INVARIANT ChainBound
